@@ -2,19 +2,18 @@ CONSTANTS
   Sets <- MC_Sets
   Keys <- MC_Keys
   Msgs <- MC_Msgs
-  Cap = 15
+  Cap = 1000
   Retention = 1
   MinDelay = 0
-  QScale = "Q128_15"
-  Deep = FALSE
+  MaxEpoch = 8
 INIT Init
 NEXT Next
 CHECK_DEADLOCK FALSE
 INVARIANTS
   Types
-  C01_Sound
-  C01_CompleteVP
-  C01_CompleteAM
-  C01_OpenOnlyWhenSufficient
-  C01_Frame
+  C08_Window
+  C08_BypassWindow
+  C08_PlainOnlyNewest
+  C08_LatestFlag
+  C08_Frame
   Dump
